@@ -260,7 +260,7 @@ fn regex_values(r: &mut Rng, pattern: &str) -> Vec<Vec<u8>> {
 fn regex_family(run: &Run, eng: &Eng) {
     let seed = run.opts.seed;
     let field = eng.scheme.get_field("str_m").unwrap();
-    let n = run.opts.size(8_000, 600_000);
+    let n = run.opts.size(80_000, 3_000_000);
     run.parallel("regex", n, |i, l| {
         let mut r = Rng::derive(seed, "c11-re", i);
         let pattern = gen_regex(&mut r, 2);
@@ -364,7 +364,7 @@ fn regex_family(run: &Run, eng: &Eng) {
 fn limits_family(run: &Run, eng: &Eng) {
     let seed = run.opts.seed;
     let limits: [usize; 7] = [1, 100, 1_000, 10_000, 100_000, 1_000_000, 10_000_000];
-    let n = run.opts.size(600, 20_000);
+    let n = run.opts.size(3_000, 60_000);
     run.parallel("regex-limits", n, |i, l| {
         let mut r = Rng::derive(seed, "c11-lim", i);
         let pattern = match i % 6 {
